@@ -20,6 +20,7 @@ type ExploreCfg struct {
 	TimeoutMs int
 	MaxPaths  int
 	MapPerm   bool
+	Twice     bool
 	Deadline  time.Time
 }
 
@@ -118,6 +119,7 @@ func (p *Program) Explore(entry *ssa.Function, cfg ExploreCfg) *EntryReport {
 			}
 			m := p.newMachine(sol, task)
 			m.mapPerm = cfg.MapPerm
+			m.twice = cfg.Twice
 			res := m.runPath(entry, rep, &mu)
 
 			mu.Lock()
@@ -244,6 +246,17 @@ func (m *Machine) runPath(entry *ssa.Function, rep *EntryReport, mu *sync.Mutex)
 		}
 	}()
 	m.call(nil, entry, nil)
+	if m.twice {
+		// 2-safety: execute the entry again in the same "process" (same package-level state), with the
+		// same inputs, fresh stores, independently chosen map iteration orders and clock readings
+		m.run = 2
+		m.nInputs1 = len(m.inputs)
+		m.inputIdx, m.evIdx = 0, 0
+		m.call(nil, entry, nil)
+		if m.evIdx != len(m.events1) {
+			m.c20mismatch("the repeated execution ends earlier than the first one")
+		}
+	}
 	res.Outcome = "ok"
 	return res
 }
